@@ -113,6 +113,308 @@ pub fn gen_plans(rng: &mut Prng, trace: &Trace, n_plans: usize) -> Vec<Vec<CellE
     plans
 }
 
+/// A directed move of the Byzantine prover against emulated field arithmetic:
+/// the limbs of a published field element are replaced (each with its whole
+/// copy cycle) by the limbs of the same integer plus or minus a multiple of the
+/// modulus - the same residue in another representation - followed by local
+/// repair (quotients and carries of the gate that produced it). An accepted
+/// table is judged like any other.
+fn modulus_stage<C: midnight_proofs::plonk::Circuit<Fq>>(k: u32, known: &dyn Fn() -> C, case: &OpCase, trace: &Trace, fault_seed: u64, st: &mut Stats) -> Option<Viol> {
+    use num_bigint::BigUint;
+    let field = case.op.split('.').nth(1)?;
+    let m = crate::ops_ff::modulus_of(field);
+    let (lb, nl) = crate::ops_ff::limb_params(field);
+    let nl = nl as usize;
+    let mut base = run_mock(k, &known(), &[], false).prover?;
+    let snapshot = base.advice().clone();
+    let cells = crate::opcirc::bound_cells(&base, 1);
+    let (_, vals, _) = crate::opcirc::bind_and_verify(&mut base);
+    // groups of published values between markers
+    let marker = Fq::from(crate::ops_ff::MARKER);
+    let mut groups: Vec<Vec<usize>> = vec![vec![]];
+    for (i, v) in vals.iter().enumerate() {
+        if *v == marker {
+            groups.push(vec![]);
+        } else {
+            groups.last_mut().unwrap().push(i);
+        }
+    }
+    let big = |f: &Fq| crate::util::fq_to_big(f);
+    // candidate limb groups: (cells, current limb values)
+    let mut cands: Vec<(String, Vec<(usize, usize)>, Vec<Fq>)> = vec![];
+    for g in groups.iter().filter(|g| g.len() == nl && g.iter().all(|i| cells.get(*i).is_some_and(|c| c.is_some()))) {
+        cands.push((format!("published@{}", g[0]), g.iter().map(|i| cells[*i].unwrap()).collect(), g.iter().map(|i| vals[*i]).collect()));
+    }
+    // internal elements: nl horizontally adjacent assigned cells holding limb-sized values
+    // (outputs of the multiplication / normalisation gates, which the prover chooses)
+    {
+        let mut rows: std::collections::BTreeMap<usize, Vec<(usize, Fq)>> = Default::default();
+        for (c, r, v) in crate::opcirc::assigned_advice_cells(&base) {
+            rows.entry(r).or_default().push((c, v));
+        }
+        let lim = BigUint::from(1u8) << lb;
+        let m1 = &m - 1u8;
+        let (mut zero_like, mut others) = (vec![], vec![]);
+        for (r, cs) in rows.iter_mut() {
+            cs.sort_by_key(|x| x.0);
+            for w in cs.windows(nl) {
+                if w[nl - 1].0 - w[0].0 != nl - 1 || w.iter().any(|(_, v)| big(v) >= lim) || w.iter().all(|(_, v)| *v == Fq::from(0)) {
+                    continue;
+                }
+                let raw = w.iter().enumerate().fold(BigUint::from(0u8), |acc, (j, (_, v))| acc + (big(v) << (lb as usize * j)));
+                let cand = (format!("row{r}col{}", w[0].0), w.iter().map(|(c, _)| (*c, *r)).collect::<Vec<_>>(), w.iter().map(|(_, v)| *v).collect::<Vec<_>>());
+                if raw == m1 {
+                    zero_like.push(cand);
+                } else {
+                    others.push(cand);
+                }
+            }
+        }
+        let mut rng = Prng::new(fault_seed, "modshift-windows");
+        rng.shuffle(&mut zero_like);
+        rng.shuffle(&mut others);
+        zero_like.truncate(4);
+        others.truncate(2);
+        cands.extend(zero_like);
+        cands.extend(others);
+    }
+    // (a) at assignment time, with honest continuation (range checks, comparisons and
+    // everything downstream are computed from the shifted limbs); the producing gate's
+    // quotient and carries are then re-solved jointly by the repair
+    {
+        let lim = BigUint::from(1u8) << lb;
+        let m1 = &m - 1u8;
+        let (mut zero_like, mut others) = (vec![], vec![]);
+        if trace.len() >= nl {
+            for i in 0..=trace.len() - nl {
+                let w = &trace[i..i + nl];
+                if (0..nl).any(|j| w[j].0 != w[0].0 + j || big(&w[j].2) >= lim) || w.iter().all(|x| x.2 == Fq::from(0)) {
+                    continue;
+                }
+                let raw = w.iter().enumerate().fold(BigUint::from(0u8), |acc, (j, x)| acc + (big(&x.2) << (lb as usize * j)));
+                if raw == m1 {
+                    zero_like.push((i, raw));
+                } else {
+                    others.push((i, raw));
+                }
+            }
+        }
+        let mut rng = Prng::new(fault_seed, "modshift-trace");
+        rng.shuffle(&mut zero_like);
+        rng.shuffle(&mut others);
+        zero_like.truncate(4);
+        others.truncate(4);
+        zero_like.extend(others);
+        for (i, raw) in zero_like {
+            for shift in [1u32, 2] {
+                let target = &raw + &m * shift;
+                if target.bits() > (lb as u64) * nl as u64 {
+                    continue;
+                }
+                let mut plan = vec![];
+                for j in 0..nl {
+                    let limb = (&target >> (lb as usize * j)) % &lim;
+                    let new = crate::util::big_to_fq(&limb);
+                    if new != trace[i + j].2 {
+                        plan.push(CellEdit { col: trace[i + j].0, ord: trace[i + j].1, val: FaultVal::Set(Fe(new)) });
+                    }
+                }
+                if plan.is_empty() {
+                    continue;
+                }
+                let r = run_mock(k, &known(), &plan, false);
+                if r.fired == 0 {
+                    continue;
+                }
+                st.fault("byzantine_modulus_shift");
+                st.inc("modshift.at_assignment");
+                st.nontrivial(prng::digest(format!("{}|modshift-h1|{i}|{shift}", case.static_key()).as_bytes()));
+                let judge = |bp: &[Fq], how: String| -> Option<Viol> {
+                    unsound(case, bp).map(|e| {
+                        Viol::new(
+                            "Unsound",
+                            format!("Unsound:{}{}", case.op, ops::published_class(case, bp)),
+                            format!("{} {:?}: the prover assigns, for a field element the circuit produces (assignment {i} of the trace), the limbs of the same integer plus {shift} x modulus{how} and the circuit is satisfied: {e}", case.op, case.p),
+                        )
+                        .with_hint(serde_json::to_value(&plan).unwrap())
+                    })
+                };
+                match &r.verdict {
+                    MockVerdict::Accept => {
+                        st.inc("modshift.accepted");
+                        if let Some(v) = judge(&r.bound_plain, String::new()) {
+                            return Some(v);
+                        }
+                    }
+                    MockVerdict::Reject(cl) if cl.iter().all(|c| c == "gate") => {
+                        let Some(mut p) = r.prover else { continue };
+                        let mut protected = vec![];
+                        for (ci, col) in p.advice().iter().enumerate() {
+                            for (ri, c) in col.iter().enumerate() {
+                                if *c != snapshot[ci][ri] {
+                                    protected.push((ci, ri));
+                                }
+                            }
+                        }
+                        let mut rrng = Prng::new(fault_seed, &format!("modshift-h1-{i}-{shift}"));
+                        let n_before = protected.len();
+                        let mut made = rayon::sim::isolated(1, || crate::repair::attempt_with(&mut p, &mut protected, &mut rrng, 24, true));
+                        // second pass: what the repair re-solved next to the shifted limbs (quotient,
+                        // carries) is assigned at assignment time too, so that its range checks are
+                        // laid out by the honest continuation
+                        let mut plan2 = plan.clone();
+                        for (c, r0) in protected[n_before..].iter() {
+                            let old = match &snapshot[*c][*r0] {
+                                midnight_proofs::dev::CellValue::Assigned(v) => *v,
+                                _ => continue,
+                            };
+                            let new = match &p.advice()[*c][*r0] {
+                                midnight_proofs::dev::CellValue::Assigned(v) => *v,
+                                _ => continue,
+                            };
+                            if let Some(t) = trace[i + nl..].iter().take(3 * nl).find(|t| t.0 == *c && t.2 == old) {
+                                if !plan2.iter().any(|e| e.col == t.0 && e.ord == t.1) {
+                                    plan2.push(CellEdit { col: t.0, ord: t.1, val: FaultVal::Set(Fe(new)) });
+                                }
+                            }
+                        }
+                        if plan2.len() > plan.len() {
+                            let r2 = run_mock(k, &known(), &plan2, false);
+                            st.inc("modshift.second_pass");
+                            match (&r2.verdict, r2.prover) {
+                                (MockVerdict::Accept, _) => {
+                                    st.inc("modshift.accepted");
+                                    if let Some(e) = unsound(case, &r2.bound_plain) {
+                                        return Some(
+                                            Viol::new(
+                                                "Unsound",
+                                                format!("Unsound:{}{}", case.op, ops::published_class(case, &r2.bound_plain)),
+                                                format!("{} {:?}: the prover assigns, for a field element the circuit produces (assignment {i} of the trace), the limbs of the same integer plus {shift} x modulus, together with the matching quotient and carries, and the circuit is satisfied: {e}", case.op, case.p),
+                                            )
+                                            .with_hint(serde_json::to_value(&plan2).unwrap()),
+                                        );
+                                    }
+                                    continue;
+                                }
+                                (MockVerdict::Reject(cl2), Some(p2)) if cl2.iter().all(|c| c == "gate") => {
+                                    p = p2;
+                                    protected.clear();
+                                    for (ci, col) in p.advice().iter().enumerate() {
+                                        for (ri, c) in col.iter().enumerate() {
+                                            if *c != snapshot[ci][ri] {
+                                                protected.push((ci, ri));
+                                            }
+                                        }
+                                    }
+                                    made = rayon::sim::isolated(1, || crate::repair::attempt_with(&mut p, &mut protected, &mut rrng, 24, true));
+                                }
+                                (v2, _) => {
+                                    if std::env::var("ZKSIM_DEBUG_MODSHIFT").is_ok() {
+                                        eprintln!("   second pass: {v2:?}");
+                                    }
+                                }
+                            }
+                        }
+                        let lf = crate::repair::local_failures(&p, &protected);
+                        if std::env::var("ZKSIM_DEBUG_MODSHIFT").is_ok() {
+                            eprintln!("modshift-h1 {} trace {i} shift {shift} zero_like {} made {made} local_failures {lf}: {:?}", case.op, raw == m1, crate::repair::describe_failures(&p, &protected));
+                        }
+                        if lf > 0 {
+                            st.inc("modshift.rejected_by_local_gate");
+                            continue;
+                        }
+                        let (v, bp, _) = crate::opcirc::bind_and_verify(&mut p);
+                        if std::env::var("ZKSIM_DEBUG_MODSHIFT").is_ok() {
+                            eprintln!("   verdict {v:?} unsound {:?}", unsound(case, &bp));
+                        }
+                        if v == MockVerdict::Accept {
+                            st.inc("modshift.accepted");
+                            if let Some(v) = judge(&bp, format!(", then re-solves the quotient and carries of the producing gate ({made} local repair(s))")) {
+                                return Some(v);
+                            }
+                        } else {
+                            st.inc("modshift.rejected");
+                        }
+                    }
+                    MockVerdict::Reject(_) => st.inc("modshift.rejected"),
+                    _ => st.inc("modshift.prover_failed"),
+                }
+            }
+        }
+    }
+    for (name, gcells, gvals) in &cands {
+        let raw = gvals.iter().enumerate().fold(BigUint::from(0u8), |acc, (j, v)| acc + (big(v) << (lb as usize * j)));
+        for shift in [1i32, 2, -1] {
+            let target = if shift > 0 { &raw + &m * (shift as u32) } else if raw >= m { &raw - &m } else { continue };
+            if target.bits() > (lb as u64) * nl as u64 {
+                continue;
+            }
+            // restore, then write the new limbs
+            for (ci, col) in snapshot.iter().enumerate() {
+                base.advice_mut()[ci].clone_from(col);
+            }
+            let mut touched = vec![];
+            let mut ok = true;
+            for j in 0..nl {
+                let limb = (&target >> (lb as usize * j)) % (BigUint::from(1u8) << lb);
+                let new = crate::util::big_to_fq(&limb);
+                let (col, row) = gcells[j];
+                // an earlier limb's cycle may already have rewritten this cell
+                let cur = match &base.advice()[col][row] {
+                    midnight_proofs::dev::CellValue::Assigned(v) => *v,
+                    _ => {
+                        ok = false;
+                        break;
+                    }
+                };
+                if new == cur {
+                    continue;
+                }
+                match apply_late(&mut base, &LateEdit { col, row, val: FaultVal::Set(Fe(new)) }) {
+                    Some(t) => touched.extend(t),
+                    None => {
+                        ok = false;
+                        break;
+                    }
+                }
+            }
+            if !ok || touched.is_empty() {
+                continue;
+            }
+            st.fault("byzantine_modulus_shift");
+            if name.starts_with("row") {
+                st.inc("modshift.internal_element");
+            }
+            st.nontrivial(prng::digest(format!("{}|modshift|{name}|{shift}", case.static_key()).as_bytes()));
+            let mut rrng = Prng::new(fault_seed, &format!("modshift{shift}{name}"));
+            let made = rayon::sim::isolated(1, || crate::repair::attempt_with(&mut base, &mut touched, &mut rrng, 48, true));
+            let lf = crate::repair::local_failures(&base, &touched);
+            if std::env::var("ZKSIM_DEBUG_MODSHIFT").is_ok() {
+                eprintln!("modshift {} {name} shift {shift} raw_is_m1 {} touched {} made {made} local_failures {lf}", case.op, raw == &m - 1u8, touched.len());
+                eprintln!("   failing: {:?}", crate::repair::describe_failures(&base, &touched));
+            }
+            if lf > 0 {
+                st.inc("modshift.rejected_by_local_gate");
+                continue;
+            }
+            let (v, bp, _) = crate::opcirc::bind_and_verify(&mut base);
+            if v == MockVerdict::Accept {
+                st.inc("modshift.accepted");
+                if let Some(e) = unsound(case, &bp) {
+                    return Some(Viol::new(
+                        "Unsound",
+                        format!("Unsound:{}{}", case.op, ops::published_class(case, &bp)),
+                        format!("{} {:?}: after honest witness generation, the limbs of a field element ({name}) are replaced by those of the same integer {} {} x modulus ({made} local repair(s)) and the circuit is satisfied: {e}", case.op, case.p, if shift > 0 { "plus" } else { "minus" }, shift.abs()),
+                    ));
+                }
+            } else {
+                st.inc("modshift.rejected");
+            }
+        }
+    }
+    None
+}
+
 /// The late-edit stage of the Byzantine prover on one honest table: every edit
 /// is applied to the whole copy cycle of its cell, followed by local repair; the
 /// gates next to the changed cells are evaluated first and the full checker runs
@@ -618,6 +920,12 @@ fn run_generic<C: midnight_proofs::plonk::Circuit<Fq>>(s: &Scn, st: &mut Stats, 
     });
     if let Some(v) = r {
         return Verdict::Violation(v);
+    }
+    // (6) emulated fields: the representation of a published element shifted by a multiple of the modulus
+    if case.op.starts_with("ff.") && s.only.is_none() && s.only_late.is_none() {
+        if let Some(v) = modulus_stage(k, &known, case, &honest.trace, s.fault_seed, st) {
+            return Verdict::Violation(v);
+        }
     }
     if let Some(m) = DEFERRED.with(|d| d.borrow_mut().take()) {
         // reported last, so that it never masks another violation of the same run
